@@ -7,6 +7,10 @@
 impl Mesh {
     pub uninterp spec fn faces_s(&self) -> Seq<[u32; 3]>;
     pub uninterp spec fn verts_s(&self) -> Seq<Point3>;
+    // Mesh::get_patches (edge-connected components, property C12): no contract is used here (only reached by a rewrite of
+    // boundary_first_flatten that adds a connectivity test, see notes/c20_fix.diff)
+    #[verifier::external_body]
+    pub fn get_patches(&self) -> (r: Vec<Vec<usize>>) { unimplemented!() }
 }
 // parry addresses vertices and faces with u32 ids
 pub broadcast axiom fn ax_c20_vlen(m: &Mesh) ensures #[trigger] m.verts_s().len() <= u32::MAX;
